@@ -15,8 +15,9 @@ CONSTANT Mode
 VARIABLE c
 Ints == (-3..3) \cup {7, -7, 100}
 Nums == {Num(i) : i \in Ints}
-Vals == {Num(0), Num(1), Num(-2), Str("a"), Nm("/k"), Pair(Num(1), Str("a")), List(<<>>), List(<<Num(1), Num(2)>>)}
-Lists == {List(<<>>), List(<<Num(1)>>), List(<<Num(1), Num(2)>>), List(<<Num(2), Num(1), Num(2)>>), List(<<Str("a"), Num(1)>>), List(<<List(<<>>)>>)}
+\* ([], [0] and [[]] all hash to 0: equality must not rest on the hash)
+Vals == {Num(0), Num(1), Num(-2), Str("a"), Nm("/k"), Pair(Num(1), Str("a")), List(<<>>), List(<<Num(0)>>), List(<<Num(1), Num(2)>>)}
+Lists == {List(<<>>), List(<<Num(1)>>), List(<<Num(1), Num(2)>>), List(<<Num(2), Num(1), Num(2)>>), List(<<Str("a"), Num(1)>>), List(<<List(<<>>)>>), List(<<List(<<Num(0)>>)>>)}
 Keys == {Num(1), Str("a"), Nm("/k")}
 Arith == {[f |-> f, a |-> <<x, y>>] : f \in {"fn:plus", "fn:minus", "fn:mult", "fn:div", "fn:mod"}, x \in Nums, y \in Nums}
          \cup {[f |-> f, a |-> <<x, y, z>>] : f \in {"fn:plus", "fn:minus", "fn:mult", "fn:div"}, x \in {Num(7), Num(-7), Num(100)}, y \in {Num(2), Num(-3), Num(0)}, z \in {Num(2), Num(0), Num(-1)}}
@@ -32,12 +33,15 @@ Struct == {[f |-> "fn:pair", a |-> <<x, y>>] : x \in Vals, y \in Vals}
           \cup {[f |-> "fn:map", a |-> <<k, v>>] : k \in Keys, v \in Vals}
           \cup {[f |-> "fn:map", a |-> <<k, v, k2, v2>>] : k \in {Num(1)}, v \in {Num(5), Str("x")}, k2 \in {Str("a"), Nm("/k")}, v2 \in {Num(6)}}
           \cup {[f |-> "fn:map:get", a |-> <<MapV(<<<<Num(1), Num(5)>>, <<Str("a"), Num(6)>>>>), k>>] : k \in Keys \cup {Num(2)}}
+          \cup {[f |-> "fn:map:get", a |-> <<MapV(<<<<k1, Str("one")>>>>), k2>>] : k1 \in {List(<<>>), List(<<Num(0)>>), Num(0)}, k2 \in {List(<<>>), List(<<Num(0)>>), Num(0), List(<<List(<<>>)>>)}}
           \cup {[f |-> "fn:struct", a |-> <<Nm("/a"), v>>] : v \in Vals}
           \cup {[f |-> "fn:struct:get", a |-> <<StructV(<<<<Nm("/a"), Num(5)>>, <<Nm("/b"), Str("x")>>>>), k>>] : k \in {Nm("/a"), Nm("/b"), Nm("/c")}}
 Cmp == {[f |-> op, a |-> <<x, y>>] : op \in {"lt", "le", "gt", "ge"}, x \in Nums, y \in Nums}
 \* reducer vectors: a bag of rows (values of the reduced variable) in two different orders
+ListBags == {<<List(<<Num(0)>>), List(<<>>)>>, <<List(<<>>), List(<<Num(0)>>)>>, <<List(<<>>), List(<<List(<<>>)>>), List(<<>>)>>}
 Bags == {<<Num(1)>>, <<Num(1), Num(2), Num(3)>>, <<Num(3), Num(1), Num(2)>>, <<Num(2), Num(2), Num(-7)>>, <<Num(-7), Num(2), Num(2)>>, <<Num(100), Num(7), Num(0), Num(-3)>>, <<Num(-3), Num(0), Num(7), Num(100)>>}
 Red == {[f |-> r, a |-> b] : r \in {"fn:count", "fn:sum", "fn:min", "fn:max", "fn:avg", "fn:collect_distinct"}, b \in Bags}
+       \cup {[f |-> r, a |-> b] : r \in {"fn:count", "fn:collect_distinct"}, b \in ListBags}
 \* int64 boundary vectors: small numbers, MaxInt64 - d and MinInt64 + d as symbolic ring values <<"w", a, b>>
 WVals == {Small(n) : n \in {-3, -2, -1, 0, 1, 2, 3}} \cup {Max64(d) : d \in 0..2} \cup {Min64(d) : d \in 0..2}
 WArg(w) == <<"w", w[1], w[2]>>
